@@ -471,7 +471,8 @@ def filter_fails(nw=2):
 
 # ---------------------------------------------------------------- C05: seeded cross product of select shapes
 SEL_POOL = [lambda: aw(1), lambda: aw(2), lambda: aw(3), lambda: recv(), lambda: recv(acc=[I(2)]),
-            lambda: recv(("tup",)), lambda: recv(("tup",), body="builtin"), lambda: tmo(0), lambda: tmo(2)]
+            lambda: recv(("tup",)), lambda: recv(("tup",), body="builtin"), lambda: tmo(0), lambda: tmo(2),
+            lambda: tmo(1), lambda: recv(acc=[I(1), I(2)]), lambda: recv(("int", "tup")), lambda: recv(("tup",), acc=[T(I(3), I(4))])]
 SEL_PRELOADS = [[], [I(1)], [I(2)], [I(1), I(2)], [T(I(3), I(4)), I(2)], [I(1), T(I(3), I(4)), I(2)]]
 
 
@@ -480,7 +481,7 @@ def select_product(seed, n, nw=2):
     rnd = random.Random(seed)
     out, seen = [], set()
     while len(out) < n:
-        k = rnd.choice([1, 2, 2, 3, 3])
+        k = rnd.choice([1, 2, 2, 3, 3, 4])
         idx = tuple(rnd.randrange(len(SEL_POOL)) for _ in range(k))
         pre = rnd.randrange(len(SEL_PRELOADS))
         after = rnd.choice([(), (I(2),), (T(I(5), I(6)),)])
@@ -495,7 +496,9 @@ def select_product(seed, n, nw=2):
         mt = max([s_["d"] for s_ in srcs if s_["k"] == "timeout"] + [0])
         name = "selx_%s_p%d_a%d_w%d" % ("".join(str(i) for i in idx), pre, len(after), nw)
         sc = select_case(srcs, SEL_PRELOADS[pre], extra_after=list(after), nw=nw, name=name, maxtick=mt)
-        sc["large"] = False
+        # the first eight of a sample are also model-checked exhaustively in the quick tier; the rest only there
+        # in the thorough tier (all of them run on the real code, are monitored and validated)
+        sc["large"] = len(out) >= 8
         sc["sampled"] = True
         out.append(sc)
     return out
